@@ -80,6 +80,52 @@ def run(check, prog):
     dimension_names(check, prog)
     description_probe(check, prog)
     tiff_description_name(check, prog)
+    no_module_state(check, prog)
+
+
+STATELESS = (IO + 'pack_attrs', IO + 'unpack_attrs', IO + 'save', IO + 'save_image',
+             IO + 'save_images', IO + 'load', IO + 'load_image', IO + 'load_average',
+             IO + 'Accumulator.push', MD + 'update_metadata', MD + 'copy_metadata',
+             MD + 'data_grid', MD + 'detector_grid',
+             'holopy.inference.result.FitResult._serialize_as_dataset',
+             'holopy.inference.result.FitResult._unserialize')
+
+
+def no_module_state(check, prog):
+    """U12: what one image's save / load / edit writes is its own: no store made
+    by these functions lands in a module-level or class-level object (a table
+    shared by every call would carry one image's metadata into the next
+    image's file).  A shallow copy of a module-level container shares its
+    elements (effects.element_roots)."""
+    n = 0
+    for q in STATELESS:
+        try:
+            fd = prog.func(q)
+        except (KeyError, AnalysisError):
+            continue
+        n += 1
+        loc = prog.loc(q, fd)
+        it = Interp(prog, max_depth=2, module_values=False)
+        try:
+            it.analyze(q)
+        except AnalysisError as e:
+            check.note('U12-no-module-state: %s not evaluated (%s)' % (q, e))
+            continue
+        short = q.rpartition('.')[2]
+        bad = []
+        for e, st, rs in writes(it):
+            shared = sorted(r for r in rs if r[0] in ('module', 'class')
+                            and not str(r[1]).startswith(('numpy', 'warnings')))
+            if shared:
+                bad.append('%s:%d `%s` writes into %s' % (
+                    e['module'].rpartition('/')[2], e['lineno'],
+                    e.get('target_src') or e.get('method', ''),
+                    ', '.join('%s-level %s' % (r[0], r[1]) for r in shared)))
+        (check.bad if bad else check.ok)(
+            'U12-no-module-state', short,
+            '; '.join(sorted(set(bad))[:3]) if bad else
+            'every store goes into an object of this call (or its arguments)', loc)
+    check.floor('U12-no-module-state entry points', n, 12)
 
 
 NAME_SINKS = ('transpose', 'rename', 'stack', 'unstack', 'expand_dims', 'swap_dims')
